@@ -122,6 +122,24 @@ pub fn make(op: Opcode, operands: &[usize], line: usize) -> Instructions {
     }
 }
 
+/// Returns true if every operand fits the width that the encoding of 'op'
+/// gives it. make() would otherwise silently truncate the operand.
+pub fn operands_fit(op: Opcode, operands: &[usize]) -> bool {
+    if let Some(def) = DEFINITIONS.get(&op) {
+        for (&o, width) in operands.iter().zip(def.operand_widths) {
+            let max = match width {
+                2 => u16::MAX as usize,
+                1 => u8::MAX as usize,
+                _ => return false,
+            };
+            if o > max {
+                return false;
+            }
+        }
+    }
+    true
+}
+
 /*
  * Helper function to decode the the operands of a bytecode instruction.
  * It is a counterpart of 'make'
